@@ -26,6 +26,7 @@ class NoCloneInline(absint.DefaultPolicy):
 def run(cx, chk):
     chk.rule("C16.R1", "field-wise clone: each field of the clone derives from the same field of self")
     chk.rule("C16.R2", "RawLRU::clone re-inserts the entries in recency order (least-recent first, via put); cap/hasher/callback from self")
+    chk.rule("C16.R4", "clone_from is the default (`*self = source.clone()`) wherever it is defined: clone() is the only way a copy is produced")
     chk.rule("C16.R3", "independence: the clone's sentinels and index are fresh; no node pointer of self flows into it")
     for cfg, F in cx.cfgs():
         n = 0
@@ -68,6 +69,29 @@ def run(cx, chk):
             if ok:
                 chk.ob("C16.R1", "%s:%s" % (cfg, f["q"]), "%d fields each cloned from the same field" % len(fields), {"fields": fields})
         chk.floor("C16.R1", "struct Clone impls in %s" % cfg, n, 6)
+        # R4: Clone::clone_from. The default is `*self = source.clone()`; an override produces its copy by other means and has to be
+        # the same copy. Only the default shape is accepted: exactly one Clone::clone(source) whose result is stored into *self.
+        n4 = 0
+        for im in F.doc["impls"]:
+            if not (im["trait"] or "").endswith("clone::Clone"):
+                continue
+            for i in im["items"]:
+                fcf = F.fns.get(i)
+                if not fcf or fcf["name"] != "clone_from" or F.body(i) is None:
+                    continue
+                n4 += 1
+                good = True
+                for p in cx.paths(cfg, fcf["path"], policy=NoCloneInline(), tag="noclone"):
+                    cl = [e for e in p.events if e["ev"] == "call" and (e["q"] or "").endswith(("Clone>::clone", "Clone::clone")) and e["args"] and e["args"][0] == ("param", 2, False)]
+                    st = [e for e in p.events if e["ev"] == "store" and e["loc"] == ("H", ("param", 1, True), ())]
+                    if not (len(cl) == 1 and len(st) == 1 and st[0]["val"] == ("call", cl[0]["id"], cl[0]["q"])):
+                        good = False
+                if good:
+                    chk.ob("C16.R4", "%s:%s" % (cfg, fcf["q"]), "*self = source.clone()")
+                else:
+                    chk.violation("C16.R4", "%s|clone_from" % fcf["q"], "%s overrides clone_from with something other than `*self = source.clone()`: the copy it builds (under self's old capacity / callback / contents) is not shown to be the one clone() builds" % fcf["q"],
+                                  fcf["span"]["file"], fcf["span"]["lo"], fcf["q"], None, cfg)
+        chk.ob("C16.R4", cfg + ":overrides", "%d clone_from overrides" % n4)
 
 
 def field_source(p, v):
